@@ -28,7 +28,7 @@ def fld(e, name=None):
 
 def check(run, prog, tier):
     run.rule("C14-a", "every store into message_buf[] is at message_producer, has slack >= 1 on every path (full-buffer tests, re-test after flush), and is followed by producer = (producer+1) % SIZE and message_length++", 4)
-    run.rule("C14-b", "flush_message: contiguous chunk length, modular consumer advance by the bytes sent, message_length -= bytes sent, nothing consumed when send fails", 4)
+    run.rule("C14-b", "flush_message: contiguous chunk length, modular consumer advance by the bytes sent, message_length -= bytes sent, nothing consumed when send fails, accepted bytes recorded in the connection record before any return", 5)
     run.rule("C14-c", "message_producer / message_consumer / message_length are written only by the functions that put bytes into the ring (each store checked under C14-a), flush_message and connection set-up", 3)
     run.rule("C14-d", "add_message and add_vmessage are siblings: same number of ring stores and the same full-buffer tests", 1)
 
@@ -53,6 +53,7 @@ def check(run, prog, tier):
     lens = [(b, i, n) for b, i, n in fm.nodes() if n.get("k") == "Asg" and n.get("op") == "=" and strip(n["L"]).get("n") == "length"]
     run.need(len(lens) >= 2, "chunk length assignments in flush_message")
     okl = True
+    unrec = False
     why = []
     for b, i, n in lens:
         r = strip(n["R"])
@@ -66,14 +67,16 @@ def check(run, prog, tier):
             good = ge
             why.append("SIZE-consumer under consumer>=producer: %s" % ge)
         else:
-            good = False
-            why.append("unrecognised chunk length %s" % show(n))
+            good = True
+            unrec = True
+            why.append("chunk length %s is not one of the two field-level forms (not decided)" % show(n))
         okl = okl and good
-    run.ob("C14-b", "chunk-length", okl, "; ".join(why), fm.file, lens[0][2].get("l"), "flush_message", what="flush_message sends a chunk that is not the contiguous unsent part of the ring: " + "; ".join(why))
+    run.ob("C14-b", "chunk-length", (None if unrec else True) if okl else False, "; ".join(why), fm.file, lens[0][2].get("l"), "flush_message", what="flush_message sends a chunk that is not the contiguous unsent part of the ring: " + "; ".join(why))
     cons = [(b, i, n) for b, i, n in fm.nodes() if n.get("k") == "Asg" and fld(n["L"], "message_consumer")]
     dec = [(b, i, n) for b, i, n in fm.nodes() if n.get("k") == "Asg" and fld(n["L"], "message_length")]
     okc = len(cons) == 1
     sent = None
+    mirror = bool(cons) and all(strip(n["R"]).get("k") == "Ref" and strip(n["R"]).get("d") == "local" for b, i, n in cons)
     if okc:
         r = strip(cons[0][2]["R"])
         okc = r.get("k") == "Bin" and r.get("op") == "%" and const_val(r["R"]) == SIZE
@@ -81,18 +84,70 @@ def check(run, prog, tier):
             a0 = strip(r["L"])
             okc = a0.get("k") == "Bin" and a0.get("op") == "+" and fld(a0["L"], "message_consumer") is not None and strip(a0["R"]).get("k") == "Ref"
             sent = strip(a0["R"]).get("n") if okc else None
-    run.ob("C14-b", "consumer-advance", okc, "consumer = (consumer + %s) %% %d" % (sent, SIZE) if okc else "consumer advance is not modular by the bytes sent", fm.file, cons[0][2].get("l") if cons else fm.line, "flush_message",
+    run.ob("C14-b", "consumer-advance", True if okc else (None if mirror else False), "consumer = (consumer + %s) %% %d" % (sent, SIZE) if okc else ("the consumer is written back from a local copy; its arithmetic is not decided" if mirror else "consumer advance is not modular by the bytes sent"), fm.file, cons[0][2].get("l") if cons else fm.line, "flush_message",
            what="flush_message advances the consumer non-modularly or not by the bytes sent")
     okd = len(dec) == 1 and dec[0][2].get("op") == "-=" and strip(dec[0][2]["R"]).get("n") == sent and sent is not None
-    run.ob("C14-b", "length-decrease", okd, "message_length -= %s (same amount as the consumer advance)" % sent if okd else "message_length does not drop by the bytes sent", fm.file, dec[0][2].get("l") if dec else fm.line, "flush_message",
+    lmirror = bool(dec) and all(strip(n["R"]).get("k") == "Ref" and strip(n["R"]).get("d") == "local" or const_val(n["R"]) == 0 for b, i, n in dec) and mirror
+    run.ob("C14-b", "length-decrease", True if okd else (None if lmirror else False), "message_length -= %s (same amount as the consumer advance)" % sent if okd else "message_length does not drop by the bytes sent", fm.file, dec[0][2].get("l") if dec else fm.line, "flush_message",
            what="flush_message: message_length and the consumer disagree on the bytes sent")
     # the advance is guarded by a successful send: sent != -1 on that path
     oks = False
     if cons:
         g = [atom_of(c, t) for c, t, B in cfgq.guards(fm, cons[0][0].id)]
         oks = any(op == "!=" and strip(l).get("n") == sent and const_val(r) == -1 for op, l, r in g)
-    run.ob("C14-b", "no-advance-on-failure", oks, "the advance runs only when %s != -1" % sent if oks else "consumer advances even when send() failed", fm.file, cons[0][2].get("l") if cons else fm.line, "flush_message",
+    run.ob("C14-b", "no-advance-on-failure", True if oks else (None if mirror else False), "the advance runs only when %s != -1" % sent if oks else "consumer advances even when send() failed", fm.file, cons[0][2].get("l") if cons else fm.line, "flush_message",
            what="flush_message consumes bytes although send() failed or would block")
+
+    # accepted bytes are accounted for before flush_message can return: from the success edge of the send (result != -1)
+    # every path to a return passes a store to ip->message_consumer and one to ip->message_length (whatever locals are used)
+    sends = [(b, i, n) for b, i, n in fm.calls() if n.get("fn") in ("send", "write", "sendto") and len(n.get("args", [])) >= 2 and any(fld(x, "message_buf") for x in walk(n["args"][1]))]
+    run.need(sends, "send()/write() of message_buf in flush_message")
+    fail_edges = set()
+    res_ids = set()
+    for b, i, n in fm.nodes():
+        if n.get("k") == "Asg" and n.get("op") == "=" and strip(n["L"]).get("k") == "Ref" and any(x.get("k") == "Call" and x.get("fn") in ("send", "write", "sendto") for x in walk(n["R"])):
+            res_ids.add(strip(n["L"]).get("id"))
+    for bid in fm.reachable():
+        c = fm.branch_cond(bid)
+        if c is None:
+            continue
+        blk = fm.blocks[bid]
+        for idx, truth in ((0, True), (1, False)):
+            op, l, r = atom_of(c, truth)
+            if op == "==" and strip(l).get("id") in res_ids and const_val(r) == -1:
+                fail_edges.add((bid, blk.succ[idx]))
+            if op in ("<", "<=") and strip(l).get("id") in res_ids and const_val(r) in (0, -1) and not (op == "<=" and const_val(r) == -1 and False):
+                fail_edges.add((bid, blk.succ[idx]))
+    cons_blocks = {b.id for b, i, n in fm.nodes() if n.get("k") == "Asg" and fld(n["L"], "message_consumer")}
+    len_blocks = {b.id for b, i, n in fm.nodes() if n.get("k") == "Asg" and fld(n["L"], "message_length")}
+    # start after the block(s) where the send result is stored
+    starts = sorted({b.id for b, i, n in fm.nodes() if n.get("k") == "Asg" and strip(n["L"]).get("id") in res_ids})
+    run.need(starts, "assignment of the send result in flush_message")
+    # the blocks reached right after a send that did not fail (only that first failure test is excluded: a later
+    # iteration's failure is exactly the case in which earlier accepted bytes must already be on record)
+    srcs = []
+    for st in starts:
+        front = [st]
+        seen = set()
+        while front:
+            x = front.pop()
+            if x in seen:
+                continue
+            seen.add(x)
+            c = fm.branch_cond(x)
+            tests_result = c is not None and any(w.get("k") == "Ref" and w.get("id") in res_ids for w in walk(c))
+            for sx in fm.blocks[x].live_succ():
+                if (x, sx) in fail_edges:
+                    continue
+                if x == st and not tests_result and fm.blocks[x].live_succ() and len(fm.blocks[x].live_succ()) == 1:
+                    front.append(sx)
+                else:
+                    srcs.append(sx)
+    p1 = fm.reach_avoiding(srcs, lambda blk: blk.id == fm.exit, avoid_blocks=cons_blocks)
+    p2 = fm.reach_avoiding(srcs, lambda blk: blk.id == fm.exit, avoid_blocks=len_blocks)
+    run.ob("C14-b", "accepted-bytes-accounted", p1 is None and p2 is None, "after a successful send every path to a return stores ip->message_consumer and ip->message_length" if p1 is None and p2 is None else
+           "path %s returns after the socket accepted bytes without storing %s: those bytes are still counted as pending and are sent again" % ((p1 or p2)[:8], "ip->message_consumer" if p1 else "ip->message_length"),
+           fm.file, sends[0][2].get("l"), "flush_message", what="flush_message can return after a partial send without recording the consumed bytes in the connection record (duplicate output)")
 
     # ---- C14-c
     setup = {"new_interactive", "create_test_interactive"}
@@ -129,6 +184,10 @@ def check(run, prog, tier):
                     rv = strip(rv)["R"]
                 if empty and const_val(rv) is not None:
                     ws.add(f.name + "(rewind while empty)")
+                elif n.get("k") == "Asg" and n.get("op") == "=" and strip(rv).get("k") == "Ref" and strip(rv).get("d") == "local" and f.name in (putters | {"flush_message"}) and any(
+                        m.get("k") == "Decl" and any(v.get("id") == strip(rv).get("id") and "init" in v and fld(v["init"], field) for v in m.get("vars", [])) or
+                        (m.get("k") == "Asg" and m.get("op") == "=" and strip(m["L"]).get("id") == strip(rv).get("id") and fld(m["R"], field)) for b9, i9, m in f.nodes()):
+                    ws.add(f.name + "(write-back of a local copy)")
                 else:
                     odd.append("%s:%s: %s" % (f.name, n.get("l"), show(n)))
         plain = {w.split("(")[0] for w in ws}
